@@ -1139,26 +1139,27 @@ impl Blockchain {
             old_chain.len()
         );
 
-        let previous_block_hash;
         let mut wallet_update_status = WALLET_NOT_UPDATED;
-        let has_gt;
-        {
-            let block = self.blocks.get(new_chain[0].as_ref()).unwrap();
-            previous_block_hash = block.previous_block_hash;
-            has_gt = block.has_golden_ticket;
-        }
 
         // ensure new chain has adequate mining support to be considered as
         // a viable chain. we handle this check here as opposed to handling
-        // it in wind_chain as we only need to check once for the entire chain
-        if !self.is_golden_ticket_count_valid(
-            previous_block_hash,
-            has_gt,
-            configs.is_browser(),
-            configs.is_spv_mode(),
-        ) {
-            debug!("gt count is not valid");
-            return (false, WALLET_NOT_UPDATED);
+        // it in wind_chain as we only need to check once for the entire chain.
+        // every block of the new chain is checked, not only its tip: the blocks
+        // below the tip were stored as side blocks and never went through this
+        for block_hash in new_chain.iter() {
+            let (previous_block_hash, has_gt) = {
+                let block = self.blocks.get(block_hash).unwrap();
+                (block.previous_block_hash, block.has_golden_ticket)
+            };
+            if !self.is_golden_ticket_count_valid(
+                previous_block_hash,
+                has_gt,
+                configs.is_browser(),
+                configs.is_spv_mode(),
+            ) {
+                debug!("gt count is not valid");
+                return (false, WALLET_NOT_UPDATED);
+            }
         }
 
         if old_chain.is_empty() {
